@@ -124,6 +124,9 @@ func Symbolic() bool                    { return false }
 func String(b []byte) string            { return string(b) }
 
 func Yield()         {}
+// FreeMapOrder(true): from here on the iteration order of Go maps (in the functions the configuration
+// names) is a free decision of the path; natively a no-op (the Go runtime randomises by itself).
+func FreeMapOrder(on bool) {}
 func Go(f func())    { f() }
 func Wait()          {}
 
